@@ -8,9 +8,11 @@ Line protocol for C01 (see harness/c01.py):
                                     filter, filterdim, rename, extend, setlb, setub, setarr, setdict,
                                     setvar, initmissing, intnorm), `DS.apply`; answers ok / E
   cfg <normalized> <useDb> <storeJac> <roundInts> [<supportSparse>]   (bits; resets the database and the call log)
-  fn <name> <c:a:q>|<c:a:q>... [dense|csr|csc|coo]   polynomial function rows c + a.x + q.x^2 and the
-                                    container of its Jacobian
-  val <name> <x>   /  jac <name> <x>     a request; answer: out=<..> db=<..> calls=<..>
+  fn <name> <c:a:q>|<c:a:q>... [dense|csr|csc|coo [obj|cstr|obs]]   polynomial function rows c + a.x + q.x^2,
+                                    the container of its Jacobian and the role it is attached in
+  val <name> <x> [nio]  /  jac <name> <x> [nio]   a request through the accessor of the role of the function
+                                    (`nio`: through the new-iteration list, x in physical coordinates),
+                                    evaluated with `roleCfg`; answer: out=<..> db=<..> calls=<..>
 -/
 
 def tol : Rat := 25 / 1125899906842624   -- 100 * 2^-52 (bound tolerance of add_variable / set_current_value)
@@ -21,6 +23,7 @@ structure D where
   ssj : Bool := false
   fns : List Fn := []
   fmts : List (String × Option SpFmt) := []
+  roles : List (String × Role) := []
   st : St := St.init
 
 def parseDict? (toks : List String) : Option (List (String × List Rat)) :=
@@ -48,6 +51,17 @@ def parseOp? (toks : List String) : Option Op :=
 
 def parseFmt (s : String) : Option SpFmt :=
   if s == "csr" then some .csr else if s == "csc" then some .csc else if s == "coo" then some .coo else none
+
+def parseRole (s : String) : Role :=
+  if s == "cstr" then .constraint else if s == "obs" then .observable
+  else if s == "nio" then .newIterObservable else .objective
+
+/-- The switches the function `n` was preprocessed with: those of its role (`roleCfg`); a request
+    flagged `nio` goes through the copy of the observable held by the new-iteration list. -/
+def cfgFor (d : D) (n : String) (via : Option String) : Cfg :=
+  match via with
+  | some "nio" => roleCfg d.cfg .newIterObservable
+  | _ => roleCfg d.cfg (((d.roles.find? (·.1 == n)).map (·.2)).getD .objective)
 
 def parseRow? (s : String) : Option Row :=
   match s.splitOn ":" with
@@ -96,16 +110,22 @@ def step (d : D) (line : String) : D × String :=
     | some rs => ({ d with fns := d.fns.filter (fun f => !(f.name == n)) ++ [⟨n, rs⟩],
                            fmts := d.fmts.filter (fun f => !(f.1 == n)) ++ [(n, parseFmt fmt)] }, "ok")
     | none => (d, "bad-op")
-  | ["val", n, x] =>
+  | ["fn", n, rows, fmt, role] =>
+    match (rows.splitOn "|").mapM parseRow? with
+    | some rs => ({ d with fns := d.fns.filter (fun f => !(f.name == n)) ++ [⟨n, rs⟩],
+                           fmts := d.fmts.filter (fun f => !(f.1 == n)) ++ [(n, parseFmt fmt)],
+                           roles := d.roles.filter (fun f => !(f.1 == n)) ++ [(n, parseRole role)] }, "ok")
+    | none => (d, "bad-op")
+  | "val" :: n :: x :: via =>
     match parseRatList? x with
     | some x =>
-      let (st', v) := evalValue d.ds d.cfg (fnVal d.fns) d.st n x
+      let (st', v) := evalValue d.ds (cfgFor d n via.head?) (fnVal d.fns) d.st n x
       ({ d with st := st' }, s!"out={showRatList v} db={showDb st'.db} calls={showCalls st'.calls}")
     | none => (d, "bad-op")
-  | ["jac", n, x] =>
+  | "jac" :: n :: x :: via =>
     match parseRatList? x with
     | some x =>
-      let (st', j) := evalJacC d.ds d.cfg d.ssj (fnJacC d.fns d.fmts d.ds.dimension) d.st n x
+      let (st', j) := evalJacC d.ds (cfgFor d n via.head?) d.ssj (fnJacC d.fns d.fmts d.ds.dimension) d.st n x
       ({ d with st := st' }, s!"out={showMat j} db={showDb st'.db} calls={showCalls st'.calls}")
     | none => (d, "bad-op")
   | ["linnorm", n] =>
